@@ -5,7 +5,36 @@ CODEC = "archive/tar, archive/zip, compress/*: the models start at the decoded h
 SHA = "SHA-384 is an arbitrary function H in every theorem"
 KERNEL = "Linux kernel path resolution / mount semantics as modelled (validated against the running kernel by the correspondence)"
 
+HASH_RULE = "seeded random filesets (all kinds, odd byte names, sibling traps a/a!/a b/trick/tricky, ids to 2^32-1, negative and sub-second mtimes, xattrs) + permanent corpus; per fileset: real HashBucket with SHA-384 vs an independent Go reference of the format vs the Lean spec (specHash) vs the Lean implementation model (hashBucket); 3 record orders; every single-attribute / single-entry edit (quick: a third of them) with a recording hasher (pre-images compared, so no hash collision can hide a difference); malformed buckets (duplicates, missing parents, missing root). Distinct = distinct wareIDs of generated filesets."
+
 PROPS = {
+    "C01": dict(
+        level="proof",
+        lean=["Rio.Props.C01"],
+        engines=["hash"],
+        classes=["order"],
+        rule=HASH_RULE,
+        trusted_base=[SHA, "refmt CBOR encoder modelled in Rio/Model/Cbor.lean (pre-images compared byte for byte)"],
+        assumptions=["records handed to the bucket have distinct keys (a fileset has one entry per path)"],
+    ),
+    "C04": dict(
+        level="proof",
+        lean=["Rio.Props.C04"],
+        engines=["hash"],
+        classes=["collision", "nonfiledir-not-hashed", "edit-panic"],
+        rule=HASH_RULE,
+        trusted_base=[SHA, "refmt CBOR encoder modelled in Rio/Model/Cbor.lean (pre-images compared byte for byte)"],
+        assumptions=["collision resistance of SHA-384 is outside the theorems: they are stated for an arbitrary H and conclude equality or an explicit collision"],
+    ),
+    "C05": dict(
+        level="proof",
+        lean=["Rio.Props.C05"],
+        engines=["hash"],
+        classes=["format"],
+        rule=HASH_RULE,
+        trusted_base=[SHA, CODEC],
+        assumptions=[],
+    ),
     "C18": dict(
         level="proof",
         lean=["Rio.Props.C18"],
